@@ -44,4 +44,11 @@ pub struct NegotiatedSnapshot {
     pub receiver_rtx_ssrc: Option<u32>,
     pub receiver_rtx_apt: Vec<(u8, u8)>,
     pub receiver_simulcast_rids: Vec<String>,
+    /// sender-side identifiers `build_description` assigns (`RtpTransceiver::sender_*`, `pending_sdes_mid`)
+    pub sender_ssrc: Option<u32>,
+    pub sender_rtx_ssrc: Option<u32>,
+    pub sender_rtx_payload_type: Option<u8>,
+    pub sender_stream_id: Option<String>,
+    pub sender_track_id: Option<String>,
+    pub pending_sdes_mid: Option<(u8, String)>,
 }
